@@ -678,8 +678,13 @@ func c07runPe(args []string) Result {
 		}
 		code := graph.PruferEncode(g.dense())
 		if g.n <= 64 {
-			if c2 := graph.PruferEncode(g.sparse()); fmt.Sprint(c2) != fmt.Sprint(code) {
+			sp := g.sparse()
+			if c2 := graph.PruferEncode(sp); fmt.Sprint(c2) != fmt.Sprint(code) {
 				r.fail("PruferEncode differs between DenseGraph %v and SparseGraph %v", code, c2)
+			}
+			// the code is a function of the tree: encoding the same object again gives the same code
+			if c3 := graph.PruferEncode(sp); fmt.Sprint(c3) != fmt.Sprint(code) {
+				r.fail("PruferEncode of the same SparseGraph a second time gives %v, first time %v", c3, code)
 			}
 		}
 		c07checkCode(r, code, g.n)
